@@ -110,15 +110,26 @@ def family_alphabets(tier):
                     call("mA", [0.5, 1.5, 2.5, 3.5, 4.5], 6.25e-6), call("mA", [0.5, 1.5, 2.5, 3.5, 4.5], 3.0e-6),
                     call("mB", [0.5, 1.5, 2.5, 3.5, 4.5], 6.25e-6),
                     call("zA", [0.1, 0.4, 0.7, 0.84], 1.0), call("zA", [0.1, 0.4, 0.7, 0.84], 2.0),
-                    call("pA", [0.1, 0.3, 0.5, 1.0], 1.0), call("pA", [0.1, 0.3, 0.5, 2.0], 0.5)]
+                    call("pA", [0.1, 0.3, 0.5, 1.0], 1.0), call("pA", [0.1, 0.3, 0.5, 2.0], 0.5),
+                    # the finite-strain model runs its own root solve at construction; the 2D Riemann solver makes numpy warn on
+                    # every call: a warnings filter or error state left behind by the first changes what the second does
+                    # (seeded change S2-C06-1)
+                    new("pF", "ep_piston.ep_piston.EPpiston", model="hyperFin"), call("pF", [0.1, 0.3, 0.5, 1.0], 1.0),
+                    new("r2", "riemann2D_2section_steadystate.ep_riemann2D_2section_steadystate.IGEOS_Solver"),
+                    call("r2", [[1.0, 0.6], [1.0, 0.25], [1.0, -0.8]], 0.25)]
     F["controls"] = [new("nA", "noh.noh1.Noh"), new("nB", "noh.noh1.Noh", geometry=2, gamma=1.4, u0=-2.0, rho0=3.0),
                      new("cA", "cog.cog1.Cog1"), new("hA", "heat.rod1d.Rod1D"),
                      call("nA", [0.1, 0.3, 0.5], 0.6), call("nB", [0.1, 0.3, 0.5], 0.6), call("cA", [0.5, 1.0, 2.0], 1.1),
                      call("hA", [0.1, 1.0, 1.9], 0.1)]
     F["burn"] = [new("k2", "kenamond.kenamond2.Kenamond2"), new("k3", "kenamond.kenamond3.Kenamond3"),
                  new("k3b", "kenamond.kenamond3.Kenamond3", x_d=[4.0, 3.0], D=1.0),
+                 new("k2b", "kenamond.kenamond2.Kenamond2", dets=[9.0, 6.0, -4.0, -11.0], t_d=[2.5, 1.0, 0.0, 1.5, 2.0], R=2.0),
+                 call("k2b", [[4.0, 1.0], [0.5, 0.5], [-6.0, 2.0]], 0.0),
                  new("cx", "dsd.cylexpansion.CylindricalExpansion"),
                  call("k2", [[4.0, 1.0], [0.5, 0.5], [-6.0, 2.0]], 0.0), call("k3", [[4.0, 1.0], [-3.5, -2.0], [0.0, -6.0]], 0.0),
+                 # a second request of the same shape with other points on the same objects (a memo keyed on the identity or the
+                 # shape of the points array: seeded change S2-C06-3)
+                 call("k2", [[-4.0, 2.5], [1.5, -0.5], [7.0, 1.0]], 0.0), call("k3", [[5.0, -1.0], [-3.2, 2.0], [1.0, 6.5]], 0.0),
                  call("k3b", [[4.0, 1.0], [-3.5, -2.0], [0.0, -6.0]], 0.0), call("cx", [[1.2, 0.0], [0.0, 1.7], [1.5, 1.5]], 0.0)]
     return F
 
@@ -149,6 +160,15 @@ BATCH_SOLVERS = [
     ("ED_Solver", "radshocks.nED_radshocks.ED_Solver", {}, [-0.02, -0.001, 0.0, 0.001, 0.02], 0.5, 1.0e-9, "exact-shared-object"),
     ("EPpiston", "ep_piston.ep_piston.EPpiston", {}, [0.1, 0.3, 0.5, 0.7, 1.0], 2.5, 0.5, "exact-or-guard"),
     # base points outside the documented untrusted small-radius region (r < ~0.31 r_shock) and >= 12 cells from the shock (r_shock = 1)
+    ("Hutchens1", "heat.hutchens1.Hutchens1", {}, [0.2, 0.25, 0.5, 0.75, 0.8], 0.9, 0.1, "exact"),      # simple fractions of b (S2-C06-2)
+    ("Hutchens1early", "heat.hutchens1.Hutchens1", {}, [0.05, 0.15, 0.25, 0.35, 0.45], 0.95, 0.001, "exact"),
+    ("Noh2", "noh2.noh2.Noh2", {}, [0.1, 0.4, 0.7, 1.0, 1.5], 3.0, 0.5, "exact"),
+    ("Cog1", "cog.cog1.Cog1", {}, [0.3, 0.7, 1.1, 1.9, 2.6], 9.0, 1.1, "exact"),
+    ("PlanarSandwich", "heat.planar_sandwich.PlanarSandwich", {"Nsum": 200}, [0.1, 0.5, 1.0, 1.5, 1.9], 2.0, 0.1, "exact"),
+    ("Kenamond1", "kenamond.kenamond1.Kenamond1", {"x_d": [1.5, -0.5], "D": 2.5, "t_d": 0.7}, [[1.0, 1.0], [2.0, -1.0], [0.5, 3.0], [-2.0, 0.0], [4.0, 4.0]], [9.0, 9.0], 0.0, "exact"),
+    ("Kenamond2", "kenamond.kenamond2.Kenamond2", {}, [[4.0, 1.0], [0.5, 0.5], [-6.0, 2.0], [1.0, -2.0], [8.0, 0.5]], [12.0, 1.0], 0.0, "exact"),
+    ("Kenamond3", "kenamond.kenamond3.Kenamond3", {}, [[4.0, 1.0], [-3.5, -2.0], [0.0, -6.0], [3.1, 0.2], [-1.0, 7.0]], [9.0, 9.0], 0.0, "exact"),
+    ("CylindricalExpansion", "dsd.cylexpansion.CylindricalExpansion", {}, [[1.2, 0.0], [0.0, 1.7], [1.5, 1.5], [2.0, 0.0], [-2.2, 1.0]], [5.0, 5.0], 0.0, "exact"),
     ("Sedov", "sedov.sedov.Sedov", {}, [0.45, 0.6, 0.75, 0.9, 1.2], 2.0, 1.0, "grid"),
     ("Mader", "mader.timmes.Mader", {}, [0.5, 1.5, 2.5, 3.5, 4.5], 4.9, 6.25e-6, "grid"),
     ("SDRZ", "sdrz.sdrz.SteadyDetonationReactionZone", {}, [0.1, 0.3, 0.5, 0.7, 0.84], 2.0, 1.0, "exact"),
@@ -354,6 +374,7 @@ def run_batch(task):
     batch varies)."""
     import props.C06_ops as opsmod
     name, cls, cfg, base, far, t, mode = [b for b in BATCH_SOLVERS if b[0] == task["solver"]][0]
+    cls_name = cls
     variants = batch_variants(base, far)
     if name == "Mader":
         # Mader documents its input as a grid: N >= 2 ascending points (dx = (x[-1]-x[0])/N; a single point gives NaN,
@@ -455,6 +476,40 @@ NEIGHBOUR_THOROUGH_ONLY = {"ED_Solver", "nED_Solver", "ie_Solver"}   # 1-2.5 s p
 NEIGHBOUR_POINTS = {"Sedov": [0.2, 0.5, 0.8, 1.1, 1.6], "Mader": [0.5, 1.5, 2.5, 3.5, 4.5], "EPpiston": [0.1, 0.3, 0.5, 0.8, 3.0]}
 
 
+_SHYUE = dict(rl=1.7, ul=0.0, pl=10.0, gl=1.25, rr=1.0, ur=0.0, pr=0.5, gr=1.25, xmin=0.0, xd0=50.0, xmax=100.0,
+              R1=4.6, R2=1.35, r0=1.84, e0=0.0, B=0.205, num_int_pts=201, num_x_pts=801)
+# solver classes outside the hydro catalogue: (class path, fixed kwargs, alphabet {param: [default, alternative, ...]}, points, time)
+EXTRA_NEIGHBOURS = {
+    "Kenamond1": ("kenamond.kenamond1.Kenamond1", {}, {"D": [1.0, 2.5], "x_d": [[0.0, 0.0], [1.5, -0.5]], "t_d": [0.0, 0.7]},
+                  [[1.0, 1.0], [2.0, -1.0], [0.5, 3.0]], 0.0),
+    "Kenamond2": ("kenamond.kenamond2.Kenamond2", {}, {"R": [3.0, 2.0], "D1": [2.0, 3.0], "D2": [1.0, 0.5], "dets": [[10.0, 5.0, -5.0, -10.0], [9.0, 6.0, -4.0, -11.0]],
+                                                     "t_d": [[2.0, 1.0, 0.0, 1.0, 2.0], [2.5, 1.0, 0.0, 1.5, 2.0]], "geometry": [2, 3]},
+                  None, 0.0),
+    "Kenamond3": ("kenamond.kenamond3.Kenamond3", {}, {"R": [3.0, 2.0], "D": [2.0, 1.0], "x_d": [[0.0, 5.0], [4.0, 3.0]], "t_d": [0.0, 0.5]},
+                  [[4.0, 1.0], [-3.5, -2.0], [0.0, -6.0]], 0.0),
+    "CylindricalExpansion": ("dsd.cylexpansion.CylindricalExpansion", {}, {"r_1": [1.0, 1.5], "r_2": [2.0, 3.0], "D_CJ_1": [0.5, 0.8], "D_CJ_2": [1.0, 1.4],
+                                                                          "alpha_1": [0.1, 0.0], "alpha_2": [0.1, 0.2], "t_d": [0.0, -2.0]},
+                             [[1.7, 0.0], [0.0, 1.9], [2.5, 2.5]], 0.0),
+    "Rod1D": ("heat.rod1d.Rod1D", {}, {"kappa": [1.0, 0.5], "L": [2.0, 1.5], "TL": [3.0, 1.0], "TR": [3.0, 2.0], "Nsum": [100, 50], "gamma1": [0.0, 1.0]},
+              [0.1, 0.7, 1.3], 0.1),
+    "PlanarSandwich": ("heat.planar_sandwich.PlanarSandwich", {"Nsum": 200}, {"kappa": [1.0, 0.5], "L": [2.0, 1.5], "TB": [1.0, 2.0], "TT": [0.0, 1.0]},
+                       [0.1, 0.7, 1.3], 0.1),
+    "Hutchens1": ("heat.hutchens1.Hutchens1", {}, {"b": [1.0, 2.5], "Tb": [5.0, 3.0], "T0": [1.0, 2.0], "rho": [7.897, 4.0], "Nsum": [100, 50]},
+                  [0.2, 0.5, 0.8], 0.1),
+    "Rectangle": ("heat.rectangle.Rectangle", {"Nsum": 30}, {"a": [2.0, 1.5], "b": [2.0, 2.5], "Ttop": [1.0, 3.0], "kappa": [1.0, 0.5]},
+                  [[0.3, 0.9, 1.2], [0.4, 1.0, 1.6]], 0.05),
+    "SuOlson": ("suolson.suolson.SuOlson", {}, {"opac": [1.0, 2.0], "alpha": [A4, 3.0 * A4], "trad_bc_ev": [1000.0, 500.0]}, [0.0, 0.1, 1.0], 1.0e-9),
+    "Blake": ("blake.blake.Blake", {}, {"ref_density": [3000.0, 7800.0], "cavity_radius": [0.1, 0.2], "pressure_scale": [1.0e6, 1.0e5]},
+              [0.25, 0.4, 0.8], 1.6e-4),
+    "Riemann2D": ("riemann2D_2section_steadystate.ep_riemann2D_2section_steadystate.IGEOS_Solver", {},
+                  {"bottom_state": [[1.0, 1.0, 2.4, 0.0, 1.4], [1.0, 1.0, 3.0, 0.0, 1.4]], "top_state": [[0.25, 0.5, 7.0, 0.0, 1.4], [0.25, 0.5, 4.0, 0.0, 1.4]]},
+                  [[1.0, -0.6], [1.0, -0.1], [1.0, 0.3], [1.0, 0.8]], 0.25),
+    # one set of left/right states under three equations of state (a table cached under a key that omits the EOS: seeded change S2-C04-2)
+    "GenEOS_eos": ("riemann.ep_riemann.GenEOS_Solver", _SHYUE, {"problem": ["JWL", "igeos"], "A": [8.545, 4.2725]}, [20.0, 40.0, 60.0, 80.0], 12.0),
+}
+KENAMOND2_POINTS = {2: [[4.0, 1.0], [0.5, 0.5], [-6.0, 2.0]], 3: [[0.3, 4.0, 1.0], [0.2, 0.5, 0.5], [1.0, -6.0, 2.0]]}
+
+
 def neighbour_families(tier):
     from xpmc import hydro, hydro_more  # noqa: F401
     out = []
@@ -465,11 +520,18 @@ def neighbour_families(tier):
         if f.get("domain") is None and n not in NEIGHBOUR_POINTS:
             continue
         out.append(n)
-    return out
+    return out + ["extra:" + k for k in EXTRA_NEIGHBOURS]
 
 
 def _neighbour_ops(f, cfg, slot):
     from xpmc import hydro
+    if "extra" in f:
+        path, fixed, alpha, pts, t = EXTRA_NEIGHBOURS[f["extra"]]
+        kw = dict(fixed)
+        kw.update(cfg)
+        if pts is None:
+            pts = KENAMOND2_POINTS[kw.get("geometry", 2)]
+        return [new(slot, path, **kw), call(slot, pts, t)]
     t = f["times"](cfg)[0]
     if f["name"] in NEIGHBOUR_POINTS:
         pts = NEIGHBOUR_POINTS[f["name"]]
@@ -482,7 +544,11 @@ def _neighbour_ops(f, cfg, slot):
 def run_neighbours(task):
     import props.C06_ops as opsmod
     from xpmc import hydro, hydro_more, lattice  # noqa: F401
-    f = hydro.by_name(task["family"])
+    if task["family"].startswith("extra:"):
+        nm = task["family"].split(":", 1)[1]
+        f = {"name": nm, "extra": nm, "alphabet": EXTRA_NEIGHBOURS[nm][2]}
+    else:
+        f = hydro.by_name(task["family"])
     res = {"evals": 0, "nontrivial": [], "violations": [], "counters": {}, "sample": None, "states": 0, "transitions": 0}
     dg = Digest()
     alpha = f["alphabet"]
@@ -498,7 +564,10 @@ def run_neighbours(task):
             res["counters"]["neighbour_vectors_without_lattice"] = res["counters"].get("neighbour_vectors_without_lattice", 0) + 1
             continue
         ref1 = history.run_in_fork(opsmod, ops1)[-1]["obs"]
-        for order, ops, ref, who in (("base-then-neighbour", ops0 + ops1, ref1, "neighbour"), ("neighbour-then-base", ops1 + ops0, ref0, "base")):
+        for order, ops, ref, who in (("base-then-neighbour", ops0 + ops1, ref1, "neighbour"), ("neighbour-then-base", ops1 + ops0, ref0, "base"),
+                                     # both constructed first, then the earlier one evaluated (class-level state written by constructors)
+                                     ("new-base,new-neighbour,call-base", [ops0[0], ops1[0], ops0[1]], ref0, "base"),
+                                     ("new-neighbour,new-base,call-neighbour", [ops1[0], ops0[0], ops1[1]], ref1, "neighbour")):
             out = history.run_in_fork(opsmod, ops)
             obs = out[-1]["obs"]
             res["evals"] += 2
